@@ -155,6 +155,129 @@ Decidable_adjust(M) == IsUnitNetwork(M) /\ AllFinite(M)      \* MOMA / ROOM (ext
 InScope_adjust(WT, KO, ref) == HasOpt(WT) /\ ref \in ArgOpt(WT) /\ ~Infeasible(KO)
 
 \* =========================================================================
+\* C06  deletions
+\* =========================================================================
+\* the instance record carries  M.genes : Seq(STRING)  and  M.rules : Seq(rule), one per reaction;
+\* a rule is a tree  <<"none">> | <<"g", gene>> | <<"and", t1, t2>> | <<"or", t1, t2>>
+\* K = the set of knocked-out (non-functional) gene ids
+RECURSIVE EvalRule(_, _)
+EvalRule(t, K) ==
+  CASE t[1] = "none" -> TRUE
+    [] t[1] = "g" -> t[2] \notin K
+    [] t[1] = "and" -> IF Bug = "rule_and_as_any" THEN EvalRule(t[2], K) \/ EvalRule(t[3], K)
+                       ELSE EvalRule(t[2], K) /\ EvalRule(t[3], K)
+    [] t[1] = "or" -> EvalRule(t[2], K) \/ EvalRule(t[3], K)
+RECURSIVE RuleGenes(_)
+RuleGenes(t) == CASE t[1] = "none" -> {} [] t[1] = "g" -> {t[2]} [] OTHER -> RuleGenes(t[2]) \cup RuleGenes(t[3])
+RECURSIVE RuleText(_)
+RuleText(t) == CASE t[1] = "none" -> ""
+                 [] t[1] = "g" -> t[2]
+                 [] OTHER -> "(" \o RuleText(t[2]) \o " " \o t[1] \o " " \o RuleText(t[3]) \o ")"
+\* declarative: the reactions whose rule becomes false
+GeneKO(M, K) == {r \in RIdx(M) : ~EvalRule(M.rules[r], K)}
+\* protocol (Gene.knock_out one gene after the other): the gene becomes non-functional, then every
+\* associated reaction that is no longer functional is set to (0, 0)
+RECURSIVE SeqGeneKO(_, _, _, _)
+SeqGeneKO(M, gs, done, zeroed) ==
+  IF gs = <<>> THEN zeroed
+  ELSE LET g == Head(gs) nf == done \cup {g}
+           assoc == {r \in RIdx(M) : g \in RuleGenes(M.rules[r])}
+           newz == IF Bug = "gene_ko_zeroes_all_associated" THEN assoc
+                   ELSE {r \in assoc : ~EvalRule(M.rules[r], nf)} IN
+       SeqGeneKO(M, Tail(gs), nf, zeroed \cup newz)
+
+\* requested combinations: unordered, repeats collapse (the diagonal of a double deletion is the single)
+SeqSet(s) == {s[k] : k \in 1..Len(s)}
+Singles(l1) == {{l1[i]} : i \in 1..Len(l1)}
+Combinations(l1, l2) ==
+  {{l1[i], l2[j]} : <<i, j>> \in {p \in (1..Len(l1)) \X (1..Len(l2)) :
+                                    Bug = "combinations_drop_diagonal" => l1[p[1]] # l2[p[2]]}}
+\* elements are POSITIONS in M.rxns (entity "reaction") or M.genes (entity "gene")
+KOReactions(M, entity, comb) == IF entity = "reaction" THEN comb ELSE GeneKO(M, {M.genes[g] : g \in comb})
+RowExpect(M, entity, comb) ==
+  LET KO == KnockOut(M, KOReactions(M, entity, comb)) F == Feasible(KO) h == HasOptF(F, KO) IN
+  [hasopt |-> h, opt |-> IF h THEN OptF(F, KO) ELSE 0, F |-> F]
+Universe(M, entity) == IF entity = "reaction" THEN RIdx(M) ELSE 1..Len(M.genes)
+\* growth is not-a-number or below tnum/tden
+Essential(M, entity, tnum, tden) ==
+  {x \in Universe(M, entity) : LET e == RowExpect(M, entity, {x}) IN ~e.hasopt \/ e.opt * tden < tnum}
+\* the pFBA optimum is a single point (then the default reference of the MOMA deletions is determined)
+PfbaPoints(F, M) == LET X == FracSetIn(F, M, 1, 1) m == MinL1In(X) IN {v \in X : L1(v) = m}
+
+\* =========================================================================
+\* C18  medium
+\* =========================================================================
+\* the instance record carries  M.comp : Seq("e" | "c"), the compartment of every metabolite.
+\* Exchanges: boundary reactions of an external metabolite (find_boundary_types with plain ids).
+MetOf(M, r) == CHOOSE m \in MIdx(M) : M.S[r][m] # 0
+Exchanges(M) == {r \in Boundary(M) : M.comp[MetOf(M, r)] = "e"}
+\* written as export (`X_e -->`, the metabolite is a reactant) or as import (`--> X_e`)
+ExportWritten(M, r) == M.S[r][MetOf(M, r)] < 0
+Absent == -1                       \* "not in the medium dictionary"
+\* import bound in the direction of metabolite creation, import flux of a flux value x
+ImportBound(M, r) == IF ExportWritten(M, r) THEN (IF FinLB(M, r) THEN -M.lb[r] ELSE Inf)
+                     ELSE (IF FinUB(M, r) THEN M.ub[r] ELSE Inf)
+ImportOf(M, r, x) == IF ExportWritten(M, r) THEN MaxOf(-x, 0) ELSE MaxOf(x, 0)
+\* media are sequences over the reactions: the value, or Absent
+GetMedium(M) == [r \in RIdx(M) |-> IF r \in Exchanges(M) /\ ImportBound(M, r) > 0 THEN ImportBound(M, r) ELSE Absent]
+SetImport(M, r, b) ==       \* the bounds <<lb, ub>> of exchange r with its import bound set to b
+  IF (IF Bug = "medium_is_export_inverted" THEN ~ExportWritten(M, r) ELSE ExportWritten(M, r))
+  THEN <<-b, M.ub[r]>> ELSE <<M.lb[r], b>>
+SetMedium(M, d) ==
+  LET nb(r) == IF r \notin Exchanges(M) THEN <<M.lb[r], M.ub[r]>>
+               ELSE IF d[r] # Absent THEN SetImport(M, r, d[r])
+               ELSE SetImport(M, r, MinOf(0, ImportBound(M, r))) IN
+  [M EXCEPT !.lb = [r \in RIdx(M) |-> nb(r)[1]], !.ub = [r \in RIdx(M) |-> nb(r)[2]]]
+\* C18 quantifier: a sub-dictionary of the exchanges with non-negative values; the export side of
+\* every exchange interval contains 0 (otherwise the documented assignment contradicts lb <= ub)
+ExportSideOK(M) == \A r \in Exchanges(M) : IF ExportWritten(M, r) THEN M.ub[r] >= 0 ELSE M.lb[r] <= 0
+InScope_setmedium(M, d) ==
+  /\ ExportSideOK(M)
+  /\ \A r \in RIdx(M) : d[r] # Absent => (r \in Exchanges(M) /\ d[r] >= 0)
+PositivePart(M, d) == [r \in RIdx(M) |-> IF d[r] # Absent /\ d[r] > 0 THEN d[r] ELSE Absent]
+
+\* minimal media.  open = 0: the model as it is; open = k > 0: every exchange gets (-k, k)
+Opened(M, k) == IF k = 0 THEN M
+                ELSE [M EXCEPT !.lb = [r \in RIdx(M) |-> IF r \in Exchanges(M) THEN -k ELSE M.lb[r]],
+                               !.ub = [r \in RIdx(M) |-> IF r \in Exchanges(M) THEN k ELSE M.ub[r]]]
+TotalImport(M, v) == SumSeq([r \in RIdx(M) |-> IF r \in Exchanges(M) THEN ImportOf(M, r, v[r]) ELSE 0])
+Components(M, v) == {r \in Exchanges(M) : ImportOf(M, r, v[r]) > 0}
+\* the vectors that reach the requested objective value (objective >= g whatever the direction)
+Reaching(F, M, g) == {v \in F : Dot(M.c, v) >= g}
+\* some medium suffices: exact for every integer objective (the LP maximum is attained at a lattice point)
+CanReach(F, M, g) == F # {} /\ (Reaching(F, M, g) # {} \/ UnboundedF(F, WithObjective(M, M.c, "max")))
+MinMediumIn(G, M) == SetMin({TotalImport(M, v) : v \in G})
+MinComponentsIn(G, M) ==
+  SetMin({IF Bug = "components_counts_exports" THEN Cardinality({r \in Exchanges(M) : v[r] # 0})
+          ELSE Cardinality(Components(M, v)) : v \in G})
+\* "objective >= g" is a bound (so that the total-import optimum is integral): single-reaction objective
+\* whose coefficient divides g, or a restriction that no feasible vector violates, or the optimal face
+ReachIsBound(F, M, g) ==
+  \/ /\ Cardinality(ObjSupport(M)) = 1
+     /\ LET r == CHOOSE k \in ObjSupport(M) : TRUE IN g % Abs(M.c[r]) = 0
+  \/ \A v \in F : Dot(M.c, v) >= g
+  \/ g = OptIn(F, M.c, "max")
+Decidable_minmedium(F, M, g) == IsUnitNetwork(M) /\ AllFinite(M) /\ ReachIsBound(F, M, g)
+Decidable_mincomponents(M) == IsUnitNetwork(M) /\ AllFinite(M)
+
+\* =========================================================================
+\* C20  summaries (pure functions of the model, an integer solution and integer ranges)
+\* =========================================================================
+\* rows are records [rxn, met, factor, flux, lo, hi]; rng = Seq(<<min, max>>) per reaction or <<>>
+ScaledRange(rng, r, factor) ==
+  IF rng = <<>> THEN <<0, 0>>
+  ELSE LET a == rng[r][1] * factor b == rng[r][2] * factor IN
+       IF (IF Bug = "summary_no_minmax_swap" THEN FALSE ELSE factor < 0) THEN <<b, a>> ELSE <<a, b>>
+SummaryRow(M, sol, rng, r, m) ==
+  LET f == M.S[r][m] sr == ScaledRange(rng, r, f) IN
+  [rxn |-> r, met |-> m, factor |-> f, flux |-> sol[r] * f, lo |-> sr[1], hi |-> sr[2]]
+\* producing / uptake side: positive scaled flux, or zero flux with a positive coefficient
+OnPlusSide(row) == row.flux > 0 \/ (row.flux = 0 /\ row.factor > 0)
+ModelRows(M, sol, rng) == {SummaryRow(M, sol, rng, r, MetOf(M, r)) : r \in Boundary(M)}
+MetRows(M, sol, rng, m) == {SummaryRow(M, sol, rng, r, m) : r \in {k \in RIdx(M) : M.S[k][m] # 0}}
+SumFlux(rows) == LET RECURSIVE go(_) go(R) == IF R = {} THEN 0 ELSE LET x == CHOOSE y \in R : TRUE IN Abs(x.flux) + go(R \ {x}) IN go(rows)
+
+\* =========================================================================
 \* fixed-point membership checks for returned vectors (scale 10^6, see FluxLatticeOps)
 \* =========================================================================
 FxL1(vx) == SumSeq([r \in 1..Len(vx) |-> Abs(vx[r])])
